@@ -28,13 +28,13 @@ def _twin(w, holes=True):
 
 
 @lemma("C15", params=lambda: [(w,) for w in P([1, 2], [1, 2, 3])],
-       bounds="circuits of width 1..2 (quick) / 1..3 (thorough), one task per width; every pattern of untracked holes; 1..2 commands (quick) / 1..3 (thorough; width 3: 1..2) of 1..2 arguments, each argument "
+       bounds="circuits of width 1..2 (quick) / 1..3 (thorough), one task per width; every pattern of untracked holes; 1..2 commands of 1..2 arguments, each argument "
                      "symbolically a tracked index (symbolic, duplicates allowed) or an explicit wire; metadata present or absent; "
                      "outputs set from tracked indices",
        outside="wider circuits / longer programs; negative indices", opts={"max_paths": 400000, "timeout_s": 3000})
 def tracked_program_equals_explicit_program(w):
     t, d, model = _twin(w)
-    steps = sym.concretize(sym.int("steps", 1, P(2, 3 if w < 3 else 2)))
+    steps = sym.concretize(sym.int("steps", 1, 2))
     for s in range(steps):
         k = sym.concretize(sym.int(f"s{s}.nargs", 1, 2))
         at, ad = [], []
